@@ -86,7 +86,11 @@ def _pipeline(ctx, q):
     trace, out = ctx.godriver("c10", "TestC10", cases=cp, timeout=1500)
     recs = vlib.read_ndjson(trace)
     skipped = [x for x in recs if x["role"] == "skip"]
-    recs = [x for x in recs if x["role"] != "skip"]
+    zt = [x for x in recs if x["role"] == "note"]
+    recs = [x for x in recs if x["role"] not in ("skip", "note")]
+    if zt:
+        ctx.notes.append("%d tail cuts removed only zero bytes (the receiver's zero fill rebuilds the same ciphertext; such a "
+                         "truncated datagram is accepted by the code): not the model's mutation, skipped, not judged" % len(zt))
     if skipped:
         shapes = sorted({(x["why"], x["nf"]) for x in skipped})
         if any(nf < 8 for _, nf in shapes):
